@@ -180,6 +180,22 @@ def _stream_worker(a):
             results.append(("timer", data, r, None))
             if r.hang:
                 break
+    elif kind == "aged":
+        # requests that have been pending for more than ten seconds when statistics are asked for (the report then has a line
+        # per old request); no timeout is configured, or one that is longer than the pause
+        acfg = proto.Config(cfg.services, timeout=rng.choice([None, 3600]), rules=cfg.rules, use_class=cfg.use_class)
+        conf = acfg.text(b["moddir"])
+        for rep in range(a["reps"]):
+            bl = mutate(rng, lines, ids) if rng.random() < 0.3 else [l.encode("latin-1") for l in lines]
+            data = join(rng, bl + [b"-1 ? stats", b"-1 ? stats2", b"-1 ? config", b"-1 ? stats"])
+            cut = data.find(b"\n", int(len(data) * rng.choice([0.3, 0.5, 0.7]))) + 1 or len(data)
+            data = data[:cut] + b"-1 ? stats\n-1 ? stats2\n" + data[cut:]
+            out, r = daemon.run_batch(b, conf, data, leaks=True, timeout=WD, pause_at=cut, pause_s=11.3)
+            results.append(("aged", data, r, None))
+            if any(l.startswith("S iauth :") and " sec old" in l for l in out):
+                results[-1] = ("aged+old-request-lines", data, r, None)
+            if r.hang:
+                break
     elif kind == "reload":
         # the stream is interrupted by a SIGUSR1 whose file says the same thing in other words: the modules listed in another
         # order (or one of them left to be pulled in as a dependency) - then the rest follows
@@ -227,6 +243,9 @@ def _stream_worker(a):
                         # a reply for a tag and service of the good stream whose text is neither a verdict nor a challenge
                         sv_, tg_ = rng.choice(live)
                         mixed.append(("-1 X %s %s :%s" % (sv_, tg_, rng.choice(["NO", "AGAIN", "MORE", "NOPE", "NOTICE hello", "OKAY x", "ok a", "no x", "O", "N", "MOREOVER y", "AGAINST z", ""]))).encode())
+                    elif c < 0.19:
+                        # an announcement that lacks parameters, for an id of the good stream (it announces nobody)
+                        mixed.append(("%d %s" % (rng.choice(ids), rng.choice(["C", "C 1.2.3.4", "C 1.2.3.4 5", "C 1.2.3.4 5 6.7.8.9", "Cfoo", "C ::1 1"]))).encode())
                     elif c < 0.2:
                         # one over-long junk line (unknown command word) whose body is made of fragments that would be valid lines
                         frag = rng.choice(["%d D " % rng.choice(ids), "%d T " % rng.choice(ids), "%d H " % rng.choice(ids), "-1 X login.svc %x_1 :NO x " % rng.choice(ids)])
@@ -310,6 +329,8 @@ def run(chk, tier, scale=1.0):
     add("junk", int((50 if q else 1000) * scale), 4 if q else 5)
     add("timer", int((16 if q else 160) * scale) or 1, 2)
     add("reload", int((24 if q else 400) * scale) or 1, 2)
+    add("aged", int((3 if q else 32) * scale) or 1, 1)
+    jobs.sort(key=lambda j: j["kind"] != "aged")      # the slow ones first
     res = vcommon.pmap(_stream_worker, jobs, chunksize=1)
     seen_crash = {}
     sampled = set()
@@ -320,6 +341,8 @@ def run(chk, tier, scale=1.0):
                 sampled.add(kind)
                 chk.sample({"kind": kind, "variant": p["tag"], "bytes": p["len"], "input_head": p["head"]}, limit=4)
             chk.count("runs_" + kind)
+            if "old-request-lines" in p["tag"]:
+                chk.count("runs_that_reported_old_requests")
             if "readfaults" in p["tag"]:
                 chk.count("runs_with_injected_read_errors")
             chk.count("input_bytes", p["len"])
@@ -359,9 +382,10 @@ def run(chk, tier, scale=1.0):
                 "command without its argument), 0..40 arguments, empty / whitespace / colon-only lines, CR LF mixtures, NUL and high bytes, 600 B..70 KB lines, ids at and "
                 "beyond the limits of int and long, every command with id -1 and with live ids, replies with every malformed tag, random bytes; (2) peer death: %s prefixes of "
                 "streams; (3) the same stream under read() segmentations of at most 1,2,3,7,16,100,1000 bytes chosen by the guarded chunk hook must give identical stdout; "
-                "every third segmentation run additionally has 30-60 %% of the read()/readv() calls on fd 0 fail with EINTR / EAGAIN (LD_PRELOAD shim); (3c) streams interrupted by a SIGUSR1 whose file lists the same modules in another order; (3b) streams interrupted for 1.6 s under a 1 s request timeout so that the real timers of pending, refused and abandoned requests expire; (4) a good stream with junk lines (unknown ids, unknown command words, malformed replies) mixed in must give identical stdout; oracle for all: exit 0 at end "
+                "every third segmentation run additionally has 30-60 %% of the read()/readv() calls on fd 0 fail with EINTR / EAGAIN (LD_PRELOAD shim); (3d) streams interrupted for 11.3 s so that the statistics asked for afterwards report requests more than ten seconds old; (3c) streams interrupted by a SIGUSR1 whose file lists the same modules in another order; (3b) streams interrupted for 1.6 s under a 1 s request timeout so that the real timers of pending, refused and abandoned requests expire; (4) a good stream with junk lines (unknown ids, unknown command words, malformed replies) mixed in must give identical stdout; oracle for all: exit 0 at end "
                 "of input, no ASan / UBSan / LeakSanitizer report, no hang; distinct = hash of input; non-trivial = non-empty input" % ("60 sampled per stream" if q else "all"))
     chk.require("runs_hostile", 500 * min(1.0, scale))
+    chk.require("runs_that_reported_old_requests", 1)
     chk.require("runs_prefix", 200 * min(1.0, scale))
     chk.require("differential_pairs_equal", 200 * min(1.0, scale))
     chk.assumptions += ["a clean sanitizer run is not memory safety (non-adjacent and intra-object overflows are missed)", "streams up to ~100 KB"]
